@@ -21,6 +21,7 @@ type Twin struct {
 	Kinds     [][]dbwrap.Kind
 	OpErr     []bool // operation i reported an error in the undisturbed run
 	Snap      []string // snapshot after operation i (only when wanted)
+	Seen      map[wire.Hash]bool // blocks that have been on the wallet's synced chain
 }
 
 // Violation is a divergence from the twin.
@@ -80,6 +81,7 @@ func RunTwin(s *Script, trace, snaps bool) (*Twin, error) {
 	}
 	t.Commits = ctl.NCommits()
 	t.Final = r.Snapshot()
+	t.Seen = r.Seen
 	t.Lines = append(r.Lines, "E")
 	return t, nil
 }
@@ -342,6 +344,10 @@ func RunCrash(s *Script, ks []int, moveOn int, dropLost bool, twin *Twin) (*Cras
 			at.CaughtUp++
 		}
 		r.Stale = best.Hash != *r.N.Tip().Hash()
+		if blk := s.byHash()[best.Hash]; blk != nil {
+			// (every block Start connected on the way is an ancestor of the tip it reached)
+			r.markSeen(blk)
+		}
 		res.Crashes = append(res.Crashes, at)
 		if !r.guard(func() { r.Query() }) {
 			crashed, ctxOverride = true, "after-restart"
@@ -370,8 +376,14 @@ func RunCrash(s *Script, ks []int, moveOn int, dropLost bool, twin *Twin) (*Cras
 				What: fmt.Sprintf("after crash(es) %v and restart the wallet reports [%s]; the run that never stopped reports [%s]", res.Crashes, b, a)}
 		} else {
 			_, a, b := firstDiff(Soft(twin.Final), Soft(res.Final))
-			res.Viol = &Violation{Key: "addressbook-row-lost-by-rollback",
-				What: fmt.Sprintf("ledgers and keystores agree, the address lists do not: after crash(es) %v and restart [%s]; the run that never stopped [%s]", res.Crashes, b, a)}
+			why := explainSoft(s, r.N.Best, Strict(res.Final), Soft(twin.Final), Soft(res.Final), twin.Seen, r.Seen)
+			if why == "" {
+				res.Viol = &Violation{Key: "addressbook-row-lost-by-rollback",
+					What: fmt.Sprintf("ledgers, balances and keystores agree; the address lists differ only in issued addresses that the final chain does not pay and that an abandoned fork, processed by one of the two runs only, paid: after crash(es) %v and restart [%s]; the run that never stopped [%s]", res.Crashes, b, a)}
+			} else {
+				res.Viol = &Violation{Key: "crash-" + strings.Join(ctxs, "+") + ":addressbook",
+					What: fmt.Sprintf("after crash(es) %v and restart the address lists differ and not in the known way (%s): [%s]; the run that never stopped [%s]", res.Crashes, why, b, a)}
+			}
 		}
 	}
 	return res, nil
